@@ -13,6 +13,7 @@ import (
 	"time"
 
 	"github.com/cnotch/ipchub/av/codec"
+	"github.com/cnotch/ipchub/av/codec/h264"
 	"github.com/cnotch/ipchub/av/codec/hevc"
 	"github.com/cnotch/ipchub/av/format/flv"
 	"github.com/cnotch/xlog"
@@ -221,6 +222,28 @@ func hevcInfo(vps, sps []byte) (hv, hs string) {
 		}
 	}()
 	return
+}
+
+// does h264.RawSPS.Decode accept the SPS?  (an input of the model: Muxer.videoMetaReady asks it
+// when the width is not known)
+func avcSpsDecodes(sps []byte) (ok bool) {
+	defer func() {
+		if recover() != nil {
+			ok = false
+		}
+	}()
+	var s h264.RawSPS
+	return s.Decode(sps) == nil
+}
+
+func hevcSpsDecodes(sps []byte) (ok bool) {
+	defer func() {
+		if recover() != nil {
+			ok = false
+		}
+	}()
+	var s hevc.H265RawSPS
+	return s.Decode(sps) == nil
 }
 
 func f64hex(f float64) string { return fmt.Sprintf("%016x", math.Float64bits(f)) }
